@@ -28,3 +28,4 @@ def run(ck):
     fresh.no_class_state_writes(ck, "C20.R7")         # inference starts from the same state for every object
     flags.inaccuracy_guard(ck, "C04.R2")                # "quantized and flagged inexact"
     fresh.no_hidden_state(ck, "C20.R8")                  # results depend on the documented state only (no caches / memos)
+    fresh.constructor_state(ck, "C20.R2")
